@@ -153,6 +153,8 @@ func (p *parser) handler() *handler {
 		return &handler{kind: 'w', id: p.nat(), arg: p.nat()}
 	case "f":
 		return &handler{kind: 'f', id: p.nat(), arg: p.nat()}
+	case "i":
+		return &handler{kind: 'i', arg: p.nat()}
 	case "x":
 		return &handler{kind: 'x', arg: p.nat()}
 	case "y":
@@ -294,6 +296,10 @@ func routesValid(rs []*route) bool {
 				if !errStatusOK(h.arg) {
 					return false
 				}
+			case 'i':
+				if h.arg < 1 {
+					return false
+				}
 			case 'x':
 				if h.arg > 2 && (h.arg < 400 || h.arg > 599) {
 					return false
@@ -363,7 +369,7 @@ func (e *enc) routes(rs []*route) {
 			case 'r', 'w', 'f':
 				e.n(h.id)
 				e.n(h.arg)
-			case 'x', 'y':
+			case 'x', 'y', 'i':
 				e.n(h.arg)
 			case 's':
 				e.routes(h.routes)
@@ -382,10 +388,78 @@ func encRoutes(rs []*route) string {
 	return strings.Join(e.b, ",")
 }
 
-func encCase(rs []*route, hasErrs bool, errs []*route, q request) string {
+func encCase(rs []*route, hasErrs bool, errs []*route, q request, named []*route) string {
 	es := "-"
 	if hasErrs {
 		es = encRoutes(errs)
 	}
-	return fmt.Sprintf("%s %s %d,%d,%d,%d", encRoutes(rs), es, q.method, q.host, q.path, q.hdr)
+	s := fmt.Sprintf("%s %s %d,%d,%d,%d", encRoutes(rs), es, q.method, q.host, q.path, q.hdr)
+	if len(named) > 0 {
+		s += " " + encRoutes(named)
+	}
+	return s
+}
+
+// ---- named routes: the route named j may only invoke names > j (no cycles)
+
+func invGt(b int, rs []*route) bool {
+	for _, r := range rs {
+		for _, h := range r.hs {
+			switch h.kind {
+			case 'i':
+				if h.arg <= b {
+					return false
+				}
+			case 's':
+				if !invGt(b, h.routes) || !invGt(b, h.errs) {
+					return false
+				}
+			}
+		}
+	}
+	return true
+}
+
+func namedValid(named []*route) bool {
+	for j, r := range named {
+		if !invGt(j+1, []*route{r}) {
+			return false
+		}
+	}
+	return true
+}
+
+// inlineNamed resolves invoke handlers by substitution (Model.lean: inlineNamed): an invoke of a
+// defined name is a subroute holding that one route; unknown names stay.
+func inlineNamed(named, rs []*route) []*route {
+	for round := 0; round < len(named); round++ {
+		rs = inlineOnce(named, rs)
+	}
+	return rs
+}
+
+func inlineOnce(named, rs []*route) []*route {
+	if rs == nil {
+		return nil
+	}
+	out := make([]*route, len(rs))
+	for i, r := range rs {
+		c := *r
+		c.hs = make([]*handler, len(r.hs))
+		for j, h := range r.hs {
+			hc := *h
+			switch h.kind {
+			case 'i':
+				if h.arg >= 1 && h.arg <= len(named) {
+					hc = handler{kind: 's', routes: []*route{named[h.arg-1]}}
+				}
+			case 's':
+				hc.routes = inlineOnce(named, h.routes)
+				hc.errs = inlineOnce(named, h.errs)
+			}
+			c.hs[j] = &hc
+		}
+		out[i] = &c
+	}
+	return out
 }
